@@ -147,6 +147,7 @@ def same_name_units(envs=(('EXPLICIT', False),)):
         'Os': Leaf('OCTETSTRING'),
         'Ls': Of(B),
         'St': Leaf('IA5String'),
+        'En': Leaf('ENUMERATED', enum=(('a', None), ('b', None), ('c', None))),
     }
     virtual = {
         'Os (SIZE (2))': Leaf('OCTETSTRING', size=Rng(2, 2, single=True)),
@@ -156,16 +157,17 @@ def same_name_units(envs=(('EXPLICIT', False),)):
     # (SIZE applied to a reference is used on OCTET STRING only: for BIT STRING, SEQUENCE OF and - in OER -
     # character strings the codecs ignore a SIZE given on a reference altogether, e.g. `l Ls (SIZE (1..3))` is
     # encoded with an unconstrained length; seen while building this family, see DESIGN 7.3)
-    plain = Seq((M('x', Ref('Iu')), M('k', Ref('Os')), M('l', Ref('Ls')), M('s', Ref('St')), M('y', B)))
+    plain = Seq((M('x', Ref('Iu')), M('k', Ref('Os')), M('l', Ref('Ls')), M('s', Ref('St')), M('e', Ref('En')),
+                 M('y', B)))
     parents = [
         ('P0', plain),
         ('P1', Seq((M('x', Ref('Iu'), 'O'), M('k', Ref('Os (SIZE (2))')), M('l', Ref('Ls')),
-                    M('s', Ref('St')), M('y', B)))),
+                    M('s', Ref('St')), M('e', Ref('En'), 'O'), M('y', B)))),
         ('P2', Seq((M('x', Ref('Iu'), 'D', default=7), M('k', Ref('Os (SIZE (0..3))')), M('l', Ref('Ls'), 'O'),
-                    M('s', Ref('St'), 'O'), M('y', B)))),
+                    M('s', Ref('St'), 'O'), M('e', Ref('En'), 'D', default='b'), M('y', B)))),
         ('P3', Seq((M('x', Tag(3, Ref('Iu'))), M('k', Tag(4, Ref('Os'))), M('l', Ref('Ls'), 'O'),
-                    M('s', Ref('St'), 'O'), M('y', B)))),
-        ('P4', Cho((M('x', Ref('Iu')), M('k', Ref('Os (SIZE (1))')), M('y', B)))),
+                    M('s', Ref('St'), 'O'), M('e', Tag(6, Ref('En'))), M('y', B)))),
+        ('P4', Cho((M('x', Ref('Iu')), M('k', Ref('Os (SIZE (1))')), M('e', Ref('En')), M('y', B)))),
         ('P5', plain),
     ]
     out = []
